@@ -277,11 +277,14 @@ func (server *GripServer) BulkAdd(stream gripql.Edit_BulkAddServer) error {
 			streamOpen = true
 
 			wg.Add(1)
+			//the loader must keep reading the channel opened for its graph, not whichever one is current later
+			graphStream := elementStream
+			graphStreamName := element.Graph
 			go func() {
-				log.WithFields(log.Fields{"graph": element.Graph}).Info("BulkAdd: streaming elements to graph")
-				err := graph.BulkAdd(elementStream)
+				log.WithFields(log.Fields{"graph": graphStreamName}).Info("BulkAdd: streaming elements to graph")
+				err := graph.BulkAdd(graphStream)
 				if err != nil {
-					log.WithFields(log.Fields{"graph": element.Graph, "error": err}).Error("BulkAdd: error")
+					log.WithFields(log.Fields{"graph": graphStreamName, "error": err}).Error("BulkAdd: error")
 					// not a good representation of the true number of errors
 					errorCount++
 				}
